@@ -25,16 +25,23 @@ ALLOWED_AXIOMS = []
 TRANSLATION = {
     "spec": {
         "module": "Gen_SimGenotype",
-        "classes": [("haptools/admix_storage.py", "HaplotypeSegment", 1)],
+        "classes": [("haptools/admix_storage.py", "HaplotypeSegment", 1),
+                    ("haptools/admix_storage.py", "GeneticMarker", 2)],
         "functions": [
             ("haptools/sim_genotype.py", "_find_coord"),
             ("haptools/sim_genotype.py", "_find_random_sample"),
             ("haptools/sim_genotype.py", "start_segment"),
             ("haptools/sim_genotype.py", "get_segment"),
+            # the per-child loop of _simulate: from `prev_chrom = chroms[0]` to just before `hap_samples.append(segments)`
+            ("haptools/sim_genotype.py", "_simulate", {
+                "name": "_simulate_child", "loop_target": "sample", "from_assign": "prev_chrom",
+                "until_append_to": "hap_samples", "result": "segments",
+                "params": ["chroms", "end_coords", "p_pop", "haps", "homolog", "true_coords", "prev_gen_samples",
+                           "segments"]}),
         ],
     },
     "models": ["TVM_C01"],   # definitions only: evaluation of the translated code (tv_kernel relation)
-    "proofs": ["TV_C01"],    # translation-validation theorems
+    "proofs": ["TV_C01", "TV_C01_Child"],    # translation-validation theorems
 }
 RULE = (
     "kernel: parents of 1-3 chromosomes x 1-8 tracts with coordinates from a small grid so that "
@@ -494,7 +501,24 @@ class TVKernel(Kernel):
 
 
 
-RELATIONS = [Kernel(), Child(), TVKernel()]
+class TVChild(Child):
+    """Every child of every generation, evaluated against the MiniPy syntax of _simulate's per-child loop
+    regenerated from the current source (slice _simulate_child) under the recorded draws."""
+    name = "tv_child"
+    coq_lib = "HVG"
+    coq_module = "TVM_C01"
+    coq_check = "check_tv_child"
+    coq_case_type = "C01_Check.ccase"
+    coq_model = "model_tv_child"
+    coq_imports = Child.coq_imports + ["C01_Check"]
+    budget = {"quick": 15, "thorough": 300}
+
+    def signature(self, inp, obs):
+        return "tv_" + super().signature(inp, obs)
+
+
+
+RELATIONS = [Kernel(), Child(), TVKernel(), TVChild()]
 
 LEVEL_TEXT = (
     "Coq theorems over all parental tract layouts, intervals and draw streams (no size bound) about a Gallina model of "
